@@ -10,7 +10,7 @@ from ..common import AnalysisError, Check, norm_stmt, parse_py
 from ..pyflow import Index, own_nodes
 
 INERT_CALLS = {"print"}
-PURE_IN_LOGGING = {"repr", "str", "len", "join", "showpeek", "format"}
+PURE_IN_LOGGING = {"repr", "str", "len", "join", "showpeek", "format", "map"}   # map over repr/str: a lazy spelling of the same
 
 
 # ------------------------------------------------------------------ residual construction
@@ -493,7 +493,10 @@ def rule_v1(chk: Check, ix: Index):
                 why = f"it writes state (`{norm_stmt(n)[:40]}`)"
             if isinstance(n, ast.Call):
                 name = norm_stmt(n.func)
-                if name not in ("self._tokenizer.peek", "repr", "str", "len", "format") and not name.endswith((".format", ".join")):
+                aliases = {norm_stmt(a.targets[0]) for qq, ff in ix.funcs.items() if qq == "Parser.__init__" for a in own_nodes(ff.node)
+                           if isinstance(a, ast.Assign) and len(a.targets) == 1 and norm_stmt(a.value) == "self._tokenizer.peek"}
+                if name not in ("self._tokenizer.peek", "repr", "str", "len", "format") and name not in aliases \
+                        and not name.endswith((".format", ".join")):
                     why = f"it calls `{name}`"
         chk.require(not why, "V1-verbose-erasure", f"{q}:transparent", g.where,
                     f"the trace helper must only peek and format, but {why}: with verbose=True the parse can then take a different "
